@@ -199,7 +199,11 @@ class SyncWorker(base.Worker):
         except OSError:
             # pass to next try-except level
             util.reraise(*sys.exc_info())
-        except Exception:
+        except BaseException:
+            # also SystemExit (raised by the handlers of the worker-timeout
+            # and quick-shutdown signals) and the greenlet Timeout / exit
+            # exceptions: once the head is on the wire, no error page may
+            # be written into the response in progress
             if resp and resp.headers_sent:
                 # If the requests have already been sent, we should close the
                 # connection to indicate the error.
